@@ -11,6 +11,7 @@ CONE = [
     'csep.core.regions.CartesianGrid2D._build_bitmask_vec',
     'csep.core.regions.CartesianGrid2D.__init__',
     'csep.core.regions.CartesianGrid2D.get_cartesian',
+    'csep.core.regions.CartesianGrid2D.get_location_of',
 ]
 ORACLE_MODULES = ['rt.oracles_grid']
 BOUNDED = os.path.exists(os.path.join(os.path.dirname(__file__), '..', 'rt', 'bounded_C01.py'))
